@@ -28,9 +28,9 @@ PY = '/venv/bin/python'
 MUTANTS = []
 
 
-def M(mid, prop, path, old, new, note='', nth=None):
+def M(mid, prop, path, old, new, note='', nth=None, expect='detected'):
     """nth=None: `old` must occur exactly once.  nth=k (1-based): replace the k-th occurrence."""
-    MUTANTS.append({'id': mid, 'prop': prop, 'file': path, 'old': old, 'new': new, 'note': note, 'nth': nth})
+    MUTANTS.append({'id': mid, 'prop': prop, 'file': path, 'old': old, 'new': new, 'note': note, 'nth': nth, 'expect': expect})
 
 
 # ---- C01 -------------------------------------------------------------------
@@ -213,6 +213,37 @@ M('M10.11', 'C10', 'atomman/unitconvert.py', "        datamodel['value'] = value
 M('M10.12', 'C10', 'atomman/core/Box.py', "            self.set(avect=avect, bvect=bvect, cvect=cvect, origin=origin)", "            self.set(avect=avect, bvect=cvect, cvect=bvect, origin=origin)",
   'b and c vectors swapped on read')
 
+# ---- C08 -------------------------------------------------------------------
+M('M08.1', 'C08', 'atomman/load/atom_data/load.py', "            system.atoms.pos[:] += shift", "            system.atoms.pos[:] -= shift",
+  'image-flag shift sign (only atoms outside the cell)')
+M('M08.2', 'C08', 'atomman/load/atom_dump/load.py', "                        xlo = xlo - min((0.0, xy, xz, xy + xz))", "                        xlo = xlo - max((0.0, xy, xz, xy + xz))",
+  'dump bounding-box correction uses max for lo (only tilted)')
+M('M08.3', 'C08', 'atomman/load/table/load.py', "    if 'id' in df:\n        df = df.sort_values('id')", "    if 'id' in df:\n        pass",
+  'table rows no longer sorted by id')
+M('M08.4', 'C08', 'atomman/load/atom_data/load.py',
+  "            try:\n                comment_index = fullline.index('#')\n            except:\n                line = fullline\n            else:\n                line = fullline[:comment_index]",
+  "            line = fullline", 'header comments no longer stripped', nth=1)
+M('M08.5', 'C08', 'atomman/load/atom_data/load.py', "    if atomsstart is None:\n        raise FileFormatError('Atoms section missing')", "    if atomsstart is None:\n        pass",
+  'missing Atoms section accepted')
+M('M08.6', 'C08', 'atomman/dump/table/dump.py', "                df[pname + istr] = uc.get_in_units(df[pname + istr], prop['unit'])",
+  "                df[pname + istr] = uc.set_in_units(df[pname + istr], prop['unit'])", 'table writer converts the wrong way (invisible when the factor is 1)')
+M('M08.7', 'C08', 'atomman/load/atom_data/load.py', "    if isinstance(data, io.IOBase):\n        data = data.read()\n\n    system, params", "    system, params",
+  'revert of the open-stream fix (atom_data)')
+M('M08.8', 'C08', 'atomman/load/atom_data/load.py', "            imageflags = imageflags.sort_values('id')[['bx', 'by', 'bz']]", "            imageflags = imageflags[['bx', 'by', 'bz']]",
+  'revert of the image-flag order fix')
+M('M08.9', 'C08', 'atomman/load/poscar/load.py', "    avect = np.array(lines[2].split(), dtype='float64') * box_scale", "    avect = np.array(lines[2].split(), dtype='float64')",
+  'POSCAR scale factor not applied to the first vector')
+M('M08.10', 'C08', 'atomman/load/poscar/load.py', "    if style[0] in 'cCkK':", "    if style[0] in 'cC':", 'POSCAR k/K cartesian flag not recognised')
+M('M08.11', 'C08', 'atomman/load/atom_dump/load.py', "                            if terms[i + len(terms) - 3] != 'pp':", "                            if terms[i + len(terms) - 3] == 'ff':",
+  'dump periodic flags: fm read as periodic')
+M('M08.12', 'C08', 'atomman/dump/atom_data/dump.py', "    content += xf2 % (ylo, yhi) +' ylo yhi\\n'", "    content += xf2 % (ylo, yhi) +' ylo yhi \\n'", 'NEGATIVE CONTROL: harmless trailing blank', expect='clean')
+M('M08.13', 'C08', 'atomman/load/atom_data/load.py', "                    xz = uc.set_in_units(float(terms[1]), units_dict['length'])\n                    yz = uc.set_in_units(float(terms[2]), units_dict['length'])",
+  "                    xz = uc.set_in_units(float(terms[2]), units_dict['length'])\n                    yz = uc.set_in_units(float(terms[1]), units_dict['length'])", 'xz and yz swapped on read')
+M('M08.14', 'C08', 'atomman/dump/atom_dump/dump.py', "            if prop['unit'] is not None and prop['unit'] != 'scaled':", "            if prop['unit'] is not None and prop['unit'] != 'scaled' and pname != 'velocity':",
+  'dump writer forgets to convert velocities')
+M('M08.15', 'C08', 'atomman/load/atom_data/load.py', "                if len(terms) == 2 and terms[1] == 'atoms':", "                if len(terms) >= 2 and terms[1] == 'atoms':",
+  'NEGATIVE CONTROL: natoms line matched loosely; a later real count line overrides it', expect='clean')
+
 
 def _flex(old):
     """Regex for `old` that tolerates trailing blanks and whitespace-only lines."""
@@ -330,16 +361,18 @@ def main():
             if args.with_tests:
                 tests = ' | tests: ' + run_tests(d)
             print('%-14s %s %-13s %5.1fs %s  # %s%s' % (m['id'], m['prop'], verdict, wall, ','.join(clauses), m['note'], tests))
-            if rc != 1:
+            want_rc = 0 if m.get('expect') == 'clean' else 1
+            if rc != want_rc:
                 missed += 1
-                if args.show or rc == 2:
+                print('   ^^^ UNEXPECTED: wanted rc=%d' % want_rc)
+                if args.show or rc == 2 or want_rc == 0:
                     print(out[-1500:])
             elif args.show:
                 print(out[-1200:])
         finally:
             shutil.rmtree(d, ignore_errors=True)
         sys.stdout.flush()
-    print('%d mutants, %d not detected' % (len(todo), missed))
+    print('%d mutants, %d with an unexpected verdict' % (len(todo), missed))
     return 1 if missed else 0
 
 
